@@ -663,8 +663,7 @@ func calculateTextEditRange(content string, pos protocol.Position, ctxType Compl
 		} else if strings.HasPrefix(line, directiveApplyAccount) {
 			startByte = len(directiveApplyAccount)
 		} else {
-			trimmed := strings.TrimLeft(line[:byteCol], " \t")
-			startByte = byteCol - len(trimmed)
+			startByte = postingAccountStart(line[:byteCol])
 		}
 	case ContextCommodity:
 		if strings.HasPrefix(line, directiveCommodity) {
@@ -695,6 +694,25 @@ func calculateTextEditRange(content string, pos protocol.Position, ctxType Compl
 		Start: protocol.Position{Line: pos.Line, Character: uint32(startChar)},
 		End:   pos,
 	}
+}
+
+// postingAccountStart returns the byte offset at which the account name starts in s, a
+// posting line up to the cursor: behind the indent, a status mark and the '(' or '[' of a
+// virtual posting.
+func postingAccountStart(s string) int {
+	isBlank := func(i int) bool { return i < len(s) && (s[i] == ' ' || s[i] == '\t') }
+	i := 0
+	for isBlank(i) {
+		i++
+	}
+	if i < len(s) && (s[i] == '*' || s[i] == '!') && isBlank(i+1) {
+		for i++; isBlank(i); i++ {
+		}
+	}
+	if i < len(s) && (s[i] == '(' || s[i] == '[') {
+		i++
+	}
+	return i
 }
 
 func findCommodityStart(line string, byteCol int) int {
@@ -734,8 +752,7 @@ func extractQueryText(content string, pos protocol.Position, ctxType CompletionC
 		if after, found := strings.CutPrefix(beforeCursor, directiveApplyAccount); found {
 			return after
 		}
-		trimmed := strings.TrimLeft(beforeCursor, " \t")
-		return trimmed
+		return beforeCursor[postingAccountStart(beforeCursor):]
 
 	case ContextPayee:
 		_, after, found := strings.Cut(beforeCursor, " ")
